@@ -62,8 +62,10 @@ CLAIMS = {
              "of valid constants are refuted (witness theorems; known findings) and excluded by boolean guards.  The same families "
              "are replayed on the implementation (model verdict compared = correspondence; expected verdict = the property), plus "
              "random constants with digit strings up to 14 and the exhaustive lexer correspondence on numeric/quote alphabets.  "
-             "Unbounded digit strings are tested, not proved.",
-        ref="DESIGN.md 4.11", technique="Rocq proof by complete evaluation over finite constant families (vm_compute) + differential lexing + family replay on the implementation",
+             "UNBOUNDED theorems (all Unicode class oracles, digit strings of any length, every table suffix, every delimiter "
+             "continuation): decimal, octal and binary integer constants are accepted; hexadecimal ones under two guards that are "
+             "proved to exclude exactly the recorded shapes.  Unbounded floats/chars/strings are tested, not proved.",
+        ref="DESIGN.md 4.11", technique="Rocq proof (unbounded induction for integer constants; complete evaluation over finite families by vm_compute) + differential lexing + family replay on the implementation",
         note=NOTE + "Modelled: lexer.py completely. Partial: the theorems are for bounded digit strings (the property's quantifier is "
              "bounded too); longer constants are only tested."),
     "C12": dict(
@@ -159,6 +161,32 @@ CLAIMS = {
              "the real main(), both formats parsed back and compared with the baseline run.",
         ref="DESIGN.md 4.16", technique="Rocq proof (generic engine + option model, reader tables from source) + option-matrix differential runs of main()",
         note=NOTE + "Modelled, not verified: argparse, open()'s decoding. Tested only: that printed text parses back to the views."),
+    "C02": dict(
+        text="PARTIAL.  The run methods of seven checks (CheckTernary, CheckLineLen, CheckLabel, CheckManyInstructions, "
+             "CheckEmptyLine, CheckLineIndent, CheckSpacing) are translated statement by statement from the Python AST into "
+             "Gallina on every run (fail closed).  Theorems for EVERY token list, statement length and context view: the pattern "
+             "created by operators S05, L01, S03, S04, S07, S08, W01, W03-W10, W12-W15, W17 of the violation catalogue makes the "
+             "translated check emit the expected code on that line (iff / exact-value forms for S05, L01, S07/S08, W06/W07; "
+             "_given_history / _given_trace where the history or the matching primary is a hypothesis; the CheckSpacing theorems "
+             "conditional on normal return); S05 and L01 are lifted to files over the generic registry-loop model (C07 tiling + "
+             "run order from Gen.Registry).  The translated models are compared with the implementation on recorded invocations "
+             "(token window actually read, context fields, diagnostics).  The other operators of the 84-id catalogue are TESTED: "
+             "the property itself is evaluated on the implementation for conforming programs x all operators x structurally "
+             "varied sites.  Ten genuine misses are recorded with narrow site predicates.",
+        ref="DESIGN.md 4.2", technique="Rocq proof over check bodies translated from source (20 operators) + invocation-level correspondence + catalogue search (84 operators)",
+        note=NOTE + "Partial: 64 operators tested only; primaries are an oracle at file level; exit status is C04's theorem."),
+    "C19": dict(
+        text="PARTIAL.  Theorems: a prefix of complete lines shifts the true position of every raw offset by its number of lines at "
+             "the same column (all prefixes, texts, offsets), hence corresponding tokens of src and P ++ src differ by exactly that "
+             "many lines (via the lexer position theorem); for every statement trace not starting with a column-1 block comment "
+             "and every field value the trace alone yields exactly one INVALID_HEADER and none behind the template header (the "
+             "CheckHeader machine translated from source); the table of all history look-backs of the rules, regenerated on every "
+             "run, is the reviewed one.  SEARCHED on every run: header in front (diagnostics = those of T minus INVALID_HEADER, "
+             "shifted by 11 lines), comment line at every top-level insertion point (earlier diagnostics untouched, later ones "
+             "shifted by one), function appended (identical diagnostics), token streams shift rigidly - over the conforming "
+             "family and violating token edits, .c and .h.  Four exceptions are recorded as known findings.",
+        ref="DESIGN.md 4.19", technique="Rocq proof (position shift, header count, look-back table tie) + metamorphic search over insertion points",
+        note=NOTE + "Partial: that all other rules' diagnostics only shift is searched, resting on the reviewed look-back table."),
     "C03": dict(
         text="Theorems for EVERY source text, every line of it and every mix of tabs and text: with line_width defined by the "
              "independent position scanner (tabs = 4-column stops), every token that starts on a line carries that line's number "
